@@ -653,6 +653,8 @@ def n9_assembly_table(ctx):
         m.env[bools[0]] = int(remove)
         m.env[bools[1]] = int(rounding)
         why = m.run(0)
+        for pth, blocks in m.shared.get('visited', {}).items():
+            visited.setdefault(pth, set()).update(blocks)
         if why != 'return':
             raise Unknown('the walk ended with %s' % why)
         out = m.deref_value(m.load(0))
@@ -674,8 +676,11 @@ def n9_assembly_table(ctx):
     n = 0
     site = b.loc
     events = set()
+    visited = {}
     prov = {}
     ctx._c07_positions = None
+    ctx._c07_visited = visited
+    ctx._c07_maxlen = maxlen
     for L in range(1, maxlen + 1):
         for Ff in (0, 1, 2, 5):
             for neg in (0, 1):
